@@ -9,13 +9,14 @@ if args and args[0] == "--stream":
     k, n = map(int, args[1].split("/")); STREAM = (k, n); args = args[2:]
 sel = args
 REPO = "/repo"
+VERIF = os.path.dirname(os.path.dirname(os.path.abspath(__file__)))     # the checkout this script lives in (a `vp run` snapshot works too)
 if STREAM:
     REPO = f"/tmp/wtsweep{STREAM[0]}"
     if not os.path.isdir(REPO):
         subprocess.run(["git", "-C", "/repo", "worktree", "add", "-q", "--detach", REPO, "HEAD"], check=True)
     subprocess.run(f"cd {REPO} && git checkout -q --detach $(git -C /repo rev-parse HEAD) && git checkout -q -- .", shell=True, check=True)
 res = {}
-for d in sorted(glob.glob("/verif/seeded/C*-*")):
+for d in sorted(glob.glob(VERIF + "/seeded/C*-*")):
     name = os.path.basename(d)
     if sel and not any(name.startswith(s) for s in sel):
         continue
@@ -35,7 +36,7 @@ for d in sorted(glob.glob("/verif/seeded/C*-*")):
         res[name] = {"applied": False}
         print(name, "DOES NOT APPLY"); continue
     try:
-        r = subprocess.run(["./check", pid, "--tier", "quick"], cwd="/verif", capture_output=True, text=True, timeout=3000, env=dict(os.environ, OPC_REPO=REPO))
+        r = subprocess.run(["./check", pid, "--tier", "quick"], cwd=VERIF, capture_output=True, text=True, timeout=3000, env=dict(os.environ, OPC_REPO=REPO))
         out = r.stdout + r.stderr
         keys = re.findall(r"^  key=(\S.*?) ::", out, re.M)
         drift = len(re.findall(r"^SPEC-DRIFT", out, re.M))
@@ -55,7 +56,7 @@ for d in sorted(glob.glob("/verif/seeded/C*-*")):
     else:
         m["caught_by_quick"] = {"check": pid, "exit": res[name].get("rc"), "note": "not caught on HEAD (see caught_by / DESIGN.md 11.6)"}
     json.dump(m, open(mp, "w"), indent=1)
-out = "/verif/seeded/RESULTS.json" if not STREAM else f"/verif/seeded/RESULTS.stream{STREAM[0]}.json"
+out = VERIF + "/seeded/RESULTS.json" if not STREAM else VERIF + f"/seeded/RESULTS.stream{STREAM[0]}.json"
 old = {}
 if os.path.exists(out):
     old = json.load(open(out))
